@@ -7,9 +7,53 @@ import CoseModel.Generated.Facts
 open CoseModel
 namespace C13
 
-/-- a label's normal form does not depend on which Go integer type spells it -/
-theorem normalize_spelling (k k' : IntKind) (v : Int) :
-    normalizeLabel (.int k v) = normalizeLabel (.int k' v) := rfl
+/-- a label's normal form does not depend on which Go integer type spells it: for a value `v`
+    of both types (`k.lo ≤ v ≤ k.hi`, `k'.lo ≤ v ≤ k'.hi`).  [Before 0eeddbc this held for every
+    `v`, `uint64(2^64-1)` and `int64(-1)` being the same label.] -/
+theorem normalize_spelling (k k' : IntKind) (v : Int) (hk : v ≤ k.hi) (hk' : v ≤ k'.hi) :
+    normalizeLabel (.int k v) = normalizeLabel (.int k' v) := by
+  by_cases hv : v ≤ maxInt64
+  · rw [normalizeLabel_int_of_le k hv, normalizeLabel_int_of_le k' hv]
+  · have hw : ∀ j : IntKind, v ≤ j.hi → normalizeLabel (.int j v) = none := by
+      intro j hj
+      rw [normalizeLabel_int_eq_none]
+      refine ⟨?_, by omega⟩
+      cases j <;> first | rfl | (simp only [IntKind.hi, maxInt64] at hj hv; omega)
+    rw [hw k hk, hw k' hk']
+
+/-- … and within int64 it is the value itself, whatever the type -/
+theorem normalize_spelling_int64 (k k' : IntKind) (v : Int) (hv : v ≤ maxInt64) :
+    normalizeLabel (.int k v) = normalizeLabel (.int k' v) := by
+  rw [normalizeLabel_int_of_le k hv, normalizeLabel_int_of_le k' hv]
+
+/-- a `uint` / `uint64` above `math.MaxInt64` is not a label (0eeddbc): it is refused like a
+    `bool` or a byte string, not wrapped to a negative one -/
+theorem normalize_refuses_wide (k : IntKind) (v : Int) (hk : k = .u ∨ k = .u64)
+    (hv : v > maxInt64) : normalizeLabel (.int k v) = none := by
+  rcases hk with rfl | rfl <;> simp [normalizeLabel, IntKind.wide, hv]
+
+/-- every label `normalizeLabel` accepts from a Go value within its type's range is that value
+    as an `int64` (no wrapping is left) -/
+theorem normalize_no_wrap (k : IntKind) (v : Int) (n : GoVal) (hlo : k.lo ≤ v) (hhi : v ≤ k.hi)
+    (h : normalizeLabel (.int k v) = some n) : n = .int .i64 v := by
+  have hn := normalizeLabel_int_eq_some h
+  have hle : v ≤ maxInt64 := by
+    cases hw : k.wide with
+    | true =>
+      have hne : normalizeLabel (.int k v) ≠ none := by rw [h]; simp
+      rw [Ne, normalizeLabel_int_eq_none] at hne
+      simp only [hw, true_and] at hne
+      omega
+    | false =>
+      cases k <;> simp [IntKind.wide] at hw <;> simp only [IntKind.hi, maxInt64] at * <;> omega
+  have hge : (-9223372036854775808 : Int) ≤ v := by
+    cases k <;> simp only [IntKind.lo] at hlo <;> omega
+  rw [hn]
+  congr 1
+  simp only [maxInt64] at hle
+  unfold wrap64
+  simp only
+  split <;> omega
 
 /-- labels that are neither integers nor text are refused -/
 theorem label_type_rule (l : GoVal) (h : normalizeLabel l = none) (v : GoVal) (rest : GoMap) (prot : Bool)
